@@ -2,6 +2,7 @@ use std::{fmt::Display, ops::Rem};
 
 use num_traits::{AsPrimitive, Zero};
 
+use super::number::Num;
 use crate::{InputType, InputValueError};
 
 pub fn multiple_of<T, N>(value: &T, n: N) -> Result<(), InputValueError<T>>
@@ -9,6 +10,15 @@ where
     T: AsPrimitive<N> + InputType,
     N: Rem<Output = N> + Zero + Display + Copy + PartialEq + 'static,
 {
+    // numbers of primitive types are divided by their exact values
+    if let (Some(value), Some(divisor)) = (Num::new(value), Num::new(&n)) {
+        return if !value.is_zero() && value.is_multiple_of(divisor) {
+            Ok(())
+        } else {
+            Err(format!("the value must be a multiple of {}.", n).into())
+        };
+    }
+
     let value = value.as_();
     if !value.is_zero() && value % n == N::zero() {
         Ok(())
@@ -26,5 +36,22 @@ mod tests {
         assert!(multiple_of(&5, 3).is_err());
         assert!(multiple_of(&6, 3).is_ok());
         assert!(multiple_of(&0, 3).is_err());
+    }
+
+    #[test]
+    fn test_multiple_of_mixed_types() {
+        // the bound of `#[graphql(validator(multiple_of = ...))]` is an `i64` or `f64`
+        assert!(multiple_of(&18446744073709551610u64, 10i64).is_ok());
+        assert!(multiple_of(&18446744073709551611u64, 10i64).is_err());
+        assert!(multiple_of(&-6i8, 3i64).is_ok());
+        assert!(multiple_of(&4.0f64, 2i64).is_ok());
+        assert!(multiple_of(&4.5f64, 2i64).is_err());
+        assert!(multiple_of(&1e300f64, 2i64).is_ok());
+        assert!(multiple_of(&0.0f64, 2i64).is_err());
+        assert!(multiple_of(&1.5f32, 0.5f64).is_ok());
+        assert!(multiple_of(&5i64, 2.5f64).is_ok());
+        assert!(multiple_of(&4i64, 2.5f64).is_err());
+        assert!(multiple_of(&9007199254740995i64, 2.5f64).is_ok());
+        assert!(multiple_of(&9007199254740996i64, 2.5f64).is_err());
     }
 }
